@@ -7,7 +7,7 @@
    not reused) — SHA-256 collision freedom plus the harness's injective id
    assignment; its boolean form is evaluated on every generated history. *)
 From Sky Require Import Base.Uint Model.Ledger Model.LedgerSpec Model.LedgerObs
-  Proofs.LedgerBasics Proofs.LedgerProofs Proofs.LedgerSupply Proofs.LedgerUtxo Proofs.LedgerPremises
+  Proofs.LedgerBasics Proofs.LedgerProofs Proofs.LedgerUtxo Proofs.LedgerPremises
   Proofs.LedgerExample.
 From Coq Require Import Permutation.
 Open Scope Z_scope.
@@ -32,7 +32,7 @@ Proof. exact created_once. Qed.
 Print Assumptions C02_created_once.
 
 (* the unspent set never lists an id twice (no hypothesis on the id table) *)
-Theorem C02_unspent_ids_distinct : forall g ops, genesis_wf g -> ops_in_range ops ->
+Theorem C02_unspent_ids_distinct : forall g ops, genesis_wf g ->
   NoDup (ids (utxo (run (init_state g) ops))).
 Proof. exact unspent_ids_distinct. Qed.
 Print Assumptions C02_unspent_ids_distinct.
